@@ -17,7 +17,9 @@ def progTok (s : String) : Option (List Call) :=
 /-- API program token: `s<id>` = set_global_recorder(recorder id), `e` = emission without local recorder,
     `x<id>` = emission inside with_local_recorder(local id), `p` = emission whose recorder call panics (caught),
     `n<k>` = emission whose recorder emits again from inside the call (k levels), `i` = emission from inside the
-    closure handed to with_recorder, `y<id>` = emission under local recorder id whose recorder panics (caught) -/
+    closure handed to with_recorder, `y<id>` = emission under local recorder id whose recorder panics (caught),
+    `w<id>` = with_recorder closure that installs recorder id and then emits, `v<l>r<id>` = installation of recorder id
+    (then an emission) inside with_local_recorder(local l) -/
 def gprogTok (s : String) : Option (List GCall) :=
   if s == "-" then some [] else
   (s.splitOn "+").mapM (fun c =>
@@ -29,12 +31,21 @@ def gprogTok (s : String) : Option (List GCall) :=
     | ['i'] => some GCall.emitIn
     | 'n' :: r => (String.ofList r).toNat?.map GCall.emitNested
     | 'y' :: r => (String.ofList r).toNat?.map GCall.emitLocalPanic
+    | 'w' :: r => (String.ofList r).toNat?.map GCall.installIn
+    | 'v' :: r => match (String.ofList r).splitOn "r" with
+      | [l, x] => do pure (GCall.installLocal (← l.toNat?) (← x.toNat?))
+      | _ => none
     | _ => none)
 
 def showTarget : Target → String
   | .noop => "none" | .global r => s!"some{r}" | .localRec l => s!"local{l}"
 
+def showRes : Res → String
+  | .ok => "ok" | .err r => s!"err{r}" | .some r => s!"some{r}" | .none => "none" | .torn => "torn"
+
 def showGRes : GRes → String
+  | .closureInstall a i b => showTarget a ++ "&" ++ showRes i ++ "&" ++ showTarget b
+  | .scopedInstall i l => showRes i ++ "&" ++ s!"local{l}"
   | .installed => "ok" | .rejected r => s!"err{r}"
   | .sent t => showTarget t
   | .unwound t => showTarget t ++ "!"
@@ -42,9 +53,6 @@ def showGRes : GRes → String
 
 def schedTok (s : String) : Option (List Nat) :=
   if s == "-" then some [] else (s.splitOn ".").mapM String.toNat?
-
-def showRes : Res → String
-  | .ok => "ok" | .err r => s!"err{r}" | .some r => s!"some{r}" | .none => "none" | .torn => "torn"
 
 /-- `cell run <progs> <schedule>`: answers the label of every step taken (the point id the stepped thread
     was parked at) and the per-thread results. Orderings: release/acquire (what the source has; pinned
